@@ -101,12 +101,13 @@ def valid_set(name, m, tier, nseeds=None, check_positions=None, kw=None, cap=Non
                 pass
         if _accepts(m, v, kw):
             nodes[v] = 0
-    if kw and not nodes:
-        # no seed is valid under these options (custom alphabet / table): repair the check position of the seeds
+    if kw:
+        # seeds that are not valid under these options (custom alphabet / table): repair their check position
         from . import synth
         for s, v in sv:
-            for u in synth._repair(m, v, kw):
-                nodes[u] = 0
+            if v not in nodes:
+                for u in synth._repair(m, v, kw):
+                    nodes[u] = 0
     stats = {'seeds': len(nodes), 'edges': 0, 'tried': 0}
     frontier = list(nodes)
     # slow validators (registry lookups of ~4 ms): bound the number of expanded nodes, and say so
